@@ -69,14 +69,14 @@ USES.update({'add_component': (3, 6, 5, 0), 'add_component_known_model': (2, 3, 
 MODEL_POOL = ['ConnectX-6', 'nope', 'RTX6000', 'P4510', 'ConnectX-5']
 
 
-def do_step(t, op, a, b, c, n, m, picks, symbolic_values):
+def do_step(t, op, a, b, c, n, m, picks, symbolic_values, uses=None):
     """apply one operation; a, b, c: symbolic indices, n: unbounded symbolic int, m: symbolic str, picks: symbolic interface indices.
     With symbolic_values (C09) an operation that takes a capacity / model string runs fully traced with those values symbolic.
     Otherwise the indices the operation uses are resolved to concrete values (each a solver-decided fork, only the ones the
     operation looks at) and the operation then runs with tracing off: the solver still enumerates every index combination."""
     if symbolic_values and op in SYMBOLIC_OPS:
         return _do_step(t, op, a, b, c, n, m, picks)
-    ua, ub, uc, up = USES[op]
+    ua, ub, uc, up = (uses or USES)[op]
     a = _concretize(a, ua) if ua else 0
     b = _concretize(b, ub) if ub else 0
     c = _concretize(c, uc) if uc else 0
@@ -301,3 +301,43 @@ def mk(prop, kind, op, small=False):
             return untraced(same_snap, exp, post) and untraced(handle_consistent, t, st)
         raise ValueError(prop)
     return h_step
+
+
+# ------------------------------------------------------------------ two consecutive steps (thorough)
+# reduced argument pools per operation so that the product of two steps stays small; indices are taken modulo these ranges
+USES2 = {
+    'add_node': (3, 1, 2, 0), 'remove_node': (3, 0, 0, 0), 'add_component_known_model': (2, 2, 3, 1), 'remove_component': (2, 3, 0, 0),
+    'add_network_service': (2, 3, 2, 1), 'remove_network_service': (3, 0, 0, 0), 'connect_interface': (2, 4, 0, 0),
+    'disconnect_interface': (2, 4, 0, 0), 'add_child_interface': (3, 2, 2, 0), 'remove_child_interface': (3, 2, 0, 0),
+    'add_facility': (5, 1, 2, 0), 'remove_facility': (5, 0, 0, 0),
+}
+OPS2_FIRST = ['add_node', 'add_component_known_model', 'add_network_service', 'connect_interface', 'disconnect_interface',
+              'remove_node', 'remove_component', 'remove_network_service', 'add_child_interface']
+OPS2_SECOND = OPS2_FIRST + ['remove_child_interface', 'add_facility', 'remove_facility']
+
+
+def mk2(prop, kind, op1, op2):
+    def h_two(a1: int, b1: int, c1: int, q1: int, a2: int, b2: int, c2: int, q2: int) -> bool:
+        """
+        pre: 0 <= a1 < 9 and 0 <= b1 < 9 and 0 <= c1 < 6 and 0 <= q1 < 9
+        pre: 0 <= a2 < 9 and 0 <= b2 < 9 and 0 <= c2 < 6 and 0 <= q2 < 9
+        post: R(_)
+        """
+        begin()
+        t = skeleton(kind)
+        for (op, a, b, c, q) in ((op1, a1, b1, c1, q1), (op2, a2, b2, c2, q2)):
+            pre = untraced(snap, t)
+            st = do_step(t, op, a, b, c, 2, 'x', [q, q, q], False, USES2)
+            if prop == 'C09':
+                if st.raised is not None and not untraced(same_snap, pre, untraced(snap, t)):
+                    return False
+            elif prop == 'C07':
+                if untraced(invariant_problems, t) != [] or untraced(views_problems, t) != []:
+                    return False
+            elif prop == 'C08':
+                if st.raised is None and (st.gone_root is not None or st.disconnect is not None or st.unpeer is not None):
+                    exp = untraced(removal_expected, pre, st)
+                    if not untraced(same_snap, exp, untraced(snap, t)) or not untraced(handle_consistent, t, st):
+                        return False
+        return True
+    return h_two
